@@ -150,6 +150,7 @@ func TestWorker(t *testing.T) {
 	count := uint64(envInt("VERIF_COUNT", 1))
 	deadline := envInt("VERIF_DEADLINE", 0)
 	minimise := os.Getenv("VERIF_MINIMISE") != "0"
+	minimised := map[string]bool{} // one minimisation per (invariant, signature) and worker
 	for i := from; i < from+count; i++ {
 		if deadline > 0 && time.Now().Unix() > deadline {
 			emit(fmt.Sprintf("DEADLINE %d", i))
@@ -161,8 +162,9 @@ func TestWorker(t *testing.T) {
 		env.Verbose = verbose
 		env.Index = i
 		rec := runOnce(t, p, env)
-		if rec.Violation != nil && minimise && !strings.Contains(","+os.Getenv("VERIF_NOMIN_INVARIANTS")+",", ","+rec.Violation.Invariant+",") {
+		if rec.Violation != nil && minimise && !minimised[rec.Violation.Invariant+"|"+rec.Violation.Sig] && !strings.Contains(","+os.Getenv("VERIF_NOMIN_INVARIANTS")+",", ","+rec.Violation.Invariant+",") {
 			inv := rec.Violation.Invariant
+			minimised[inv+"|"+rec.Violation.Sig] = true
 			tape, mrec, tried := sim.Minimise(rec.Tape, inv, func(tp []uint32) sim.Record {
 				e2 := sim.NewReplayEnv(id, seed, tp)
 				e2.Verbose = true
